@@ -17,7 +17,8 @@ elab "#audit_modules " ms:ident* : command => do
       for n in names do
         if n.isInternalDetail then continue
         let last := match n with | .str _ s => s | _ => ""
-        if last.startsWith "eq_" || last.startsWith "match_" || last.startsWith "proof_" || last.startsWith "_"
+        let autoMatch : Bool := last.startsWith "match_" && (last.drop 6).all Char.isDigit
+        if last.startsWith "eq_" || autoMatch || last.startsWith "proof_" || last.startsWith "_"
            || last == "sizeOf_spec" || last == "injEq" || last == "inj" || last.startsWith "congr_simp" then continue
         match env.find? n with
         | some (.thmInfo _) =>
